@@ -379,27 +379,26 @@ def r13(ctx, fx, ref, opfn):
                 return True
         return False
 
-    # cur_pc: a let whose init contains Add(<try_current_target_pc…>, 2)
+    # cur_pc: a let whose init contains  <try_current_target_pc…> + 2   (plain, wrapping_ or checked_ addition)
     cur = None
-    for nm, init in lets.items():
-        for x in lib.hwalk(init):
-            if x.get("k") == "binary" and x["op"] == "Add":
-                l, r = lib.strip(x["l"]), lib.strip(x["r"])
-                for a, b in ((l, r), (r, l)):
-                    if derives_from_call(a, "try_current_target_pc") and lib.hlit(b) is not None:
-                        cur = (nm, lib.hlit(b))
+    descs = {nm: lib.hdesc(init) for nm, init in lets.items()}
+    for nm, d in descs.items():
+        for t in lib.subterms(d):
+            if isinstance(t, tuple) and len(t) == 3 and t[0] == "Add":
+                for a, b in ((t[1], t[2]), (t[2], t[1])):
+                    if "try_current_target_pc" in repr(a) and isinstance(b, tuple) and b[0] == "c":
+                        cur = (nm, b[1])
     ctx.inst(rid, k + "|plus2", sample={"cur_pc": cur})
     if cur is None:
         ctx.finding(rid, k + "|plus2", "address of the next instruction (current target pc + 2) not found", loc)
     elif cur[1] != 2:
         ctx.finding(rid, k + "|plus2", "branch origin must be current pc + 2 (length of the branch instruction), found + %s" % cur[1], loc)
-    # target: a let that is (a cast of) the evaluated operand value — the name matched in the tuple (value, am, suffix)
-    # offset = target - cur
+    # offset = target - cur   (plain, checked_ or wrapping_ subtraction)
     off = None
-    for nm, init in lets.items():
-        x = lib.strip(init)
-        if x.get("k") == "binary" and x["op"] == "Sub":
-            off = (nm, lib.hpath(x["l"]), lib.hpath(x["r"]))
+    for nm, d in descs.items():
+        for t in lib.subterms(d):
+            if isinstance(t, tuple) and len(t) == 3 and t[0] == "Sub" and t[1][0] == "v" and t[2][0] == "v":
+                off = (nm, t[1][1], t[2][1])
     ctx.inst(rid, k + "|sub", sample={"offset": off})
     tgt = None
     if off is None:
